@@ -21,6 +21,7 @@ LEVEL_TEXT += (" Attribute names (the keys of every `attrs` object) are serialis
 
 LEVEL_TEXT += (" (C14.S) in the list-member loops of Display / Debug for Value the separator is decided by position only; a variant's JSON payload entry is the payload itself, not a value computed from it.")
 LEVEL_TEXT += (' Display and Serialize of Attributes read the field `values` only (no memo or side table).')
+LEVEL_TEXT += (' display_json passes the serializer on every successful path.')
 VALUE = "tsg::graph::Value"
 
 
@@ -375,6 +376,12 @@ def run(prog, rep):
         body, tr = f.body, Tracer(f.body)
         ser = [(b, t) for b, t in body.calls() if is_callee(t, r"serde_json::to_string_pretty$|serde_json::to_string$|serde_json::to_writer\w*$")]
         rep.check(len(ser) == 1 and canon(strip(tr.operand(ser[0][1]["args"][0]))) == "arg:self", "C14.J", "display_json :: serialises self", f.loc(), "serde_json::to_string_pretty(self)", "display_json does not serialise the graph it is called on")
+        # ... on every path: no successful return without having serialised (an empty graph is `[]`, not nothing)
+        from ..engines.e2_errflow import _failure_blocks
+        serb = {b for b, _t in ser}
+        skip = body.reach_from([0], avoid=serb | _failure_blocks(body)) & set(body.return_blocks())
+        rep.check(bool(serb) and not skip, "C14.J", "display_json :: always serialises", f.loc(), "every successful return has passed the serializer",
+                  "display_json can return successfully without serialising anything: for some graphs no (or a stale) JSON document is left")
         opens = []
         for g in [f] + prog.all_closures_under(f):
             gtr = Tracer(g.body)
